@@ -154,7 +154,7 @@ Print Assumptions C10_checker_decides_assignment.
     has only smart contracts before it and is itself one of those parties or is not last and holds
     a grant from every signer after it, then the message is ACCEPTED. *)
 Theorem C10_endpoints_complete_direct : forall e op signers,
-  doc_wellformed op = true -> enforces_contract_rule op = true ->
+  doc_wellformed op = true -> direct_with_contracts op = true ->
   doc_direct_P e op signers ->
   contract_rule e (doc_used is_party_signer op) signers ->
   outer_accept e op signers = true.
@@ -207,6 +207,30 @@ Theorem C10_endpoints_checker_complete : forall e op signers,
   doc_direct e op signers = true -> outer_accept e op signers = true.
 Proof. exact doc_direct_sound. Qed.
 Print Assumptions C10_endpoints_checker_complete.
+
+(** ** MsgWriteScope on an existing scope WITH the value-owner fields ([OWriteScopeFull]; the
+    model transcribes Scope.Equals field by field and the "only the value owner changes" shortcut
+    of ValidateWriteScope).  The general endpoint theorems above cover it; two instances written
+    out.  (1) Whatever the message does to the value owner, if the owner list differs from the
+    stored one in ANY field — address, role or optional flag — the party rules apply: with rollup
+    every non-optional stored owner is accounted for and the required roles have a signed
+    injective assignment, without rollup every stored owner is accounted for. *)
+Theorem C10_scope_write_owner_change_needs_signatures : forall e ex pr roles signers,
+  outer_accept e (OWriteScopeFull ex pr roles) signers = true ->
+  owners_unchanged (sv_owners ex) (sv_owners pr) = false ->
+  (sv_rollup ex = true ->
+     (forall p, In p (sv_owners ex) -> p_opt p = false -> covered e signers (p_addr p)) /\
+     role_assignment (covered e signers) (sv_owners ex) roles) /\
+  (sv_rollup ex = false -> forall p, In p (sv_owners ex) -> covered e signers (p_addr p)).
+Proof. exact scope_write_owner_change_needs_signatures. Qed.
+Print Assumptions C10_scope_write_owner_change_needs_signatures.
+
+(** (2) [owners_unchanged] (same length, every stored owner reappears with the same address, role
+    and optional flag) is equality as sets when the stored owners are duplicate-free. *)
+Theorem C10_owners_unchanged_is_set_equality : forall l1 l2,
+  NoDup l1 -> owners_unchanged l1 l2 = true -> forall p, In p l2 <-> In p l1.
+Proof. exact owners_unchanged_sym. Qed.
+Print Assumptions C10_owners_unchanged_is_set_equality.
 
 (** ** MsgUpdateValueOwners (signer part): every current value owner is one of the signers that
     count — all of them, or only the first one when that is a smart contract — or has granted the
@@ -366,4 +390,23 @@ Example C10_witness_endpoints :
   outer_accept e (OUpdateValueOwners [Some 3; Some 4; Some 3] 5) [3; 4] = true /\
   outer_accept e (OUpdateValueOwners [Some 3; Some 4] 5) [3] = false /\
   enforces_contract_rule op = true.
+Proof. vm_compute. repeat split. Qed.
+
+(** Non-vacuity for the value-owner shortcut: rollup scope, owners 1 and 2 (OWNER, both required),
+    value owner 3.  Moving the value owner to 4 signed by 3 alone is accepted when nothing else
+    changes, and REJECTED when the same message also makes owner 2 optional (or changes its role,
+    the data access or the specification); with 1 and 2 signing as well it is accepted. *)
+Example C10_witness_value_owner_shortcut :
+  let o1 := {| p_addr := 1; p_role := 5; p_opt := false |} in
+  let o2 := {| p_addr := 2; p_role := 5; p_opt := false |} in
+  let o2' := {| p_addr := 2; p_role := 5; p_opt := true |} in
+  let ex := {| sv_spec := 1; sv_owners := [o1; o2]; sv_data := [4]; sv_vo := Some 3; sv_rollup := true |} in
+  let pr owners data := {| sv_spec := 1; sv_owners := owners; sv_data := data; sv_vo := Some 4; sv_rollup := true |} in
+  let e := {| e_wasm := [6]; e_grants := [] |} in
+  outer_accept e (OWriteScopeFull ex (pr [o2; o1] [4]) [5]) [3] = true /\
+  outer_accept e (OWriteScopeFull ex (pr [o1; o2'] [4]) [5]) [3] = false /\
+  outer_accept e (OWriteScopeFull ex (pr [o1; o2] [4; 1]) [5]) [3] = false /\
+  outer_accept e (OWriteScopeFull ex (pr [o1; o2'] [4]) [5]) [3; 1; 2] = true /\
+  outer_accept e (OWriteScopeFull ex (pr [o1; o2'] [4]) [5]) [1; 2] = false /\
+  doc_only_vo ex (pr [o2; o1] [4]) = true /\ doc_only_vo ex (pr [o1; o2'] [4]) = false.
 Proof. vm_compute. repeat split. Qed.
